@@ -1007,6 +1007,8 @@ class Interp:
             if w < v.width:
                 return I(z3.Extract(w - 1, 0, v.v), ty)
             return I(z3.SignExt(w - v.width, v.v) if v.signed else z3.ZeroExt(w - v.width, v.v), ty)
+        if kind.startswith("Subtype"):
+            return v  # subtyping coercion (lifetimes only): identity
         if kind.startswith(("PtrToPtr", "PointerCoercion", "Transmute", "FnPtrToPtr")):
             if isinstance(v, (Ptr, FnItem, Agg, Opaque)):
                 if kind.startswith("Transmute") and not isinstance(v, Ptr):
@@ -1095,6 +1097,13 @@ class Interp:
                 tr = base_type_name(cal.trait) if cal.trait else None
                 if tr in ("Fn", "FnMut", "FnOnce") and isinstance(rt, str) and rt.startswith("{closure@"):
                     return self.call_closure(args[0], args[1])
+                if tr == "Clone" and cal.method == "clone" and isinstance(rt, str) and rt.startswith("{closure@"):
+                    # derived-like clone of a closure environment: captured values are cloned structurally (scalars and
+                    # environment tokens copy, Arc pointers alias)
+                    env = args[0]
+                    while isinstance(env, Ptr):
+                        env = self.read_loc(env.cell, env.path)
+                    return clone_value(env)
                 for nm in cal.names(selft_override=rt):
                     h = self.models.lookup(nm)
                     if h:
